@@ -5,6 +5,8 @@ package main
 
 import (
 	"bytes"
+	"fmt"
+	"strings"
 	"math/big"
 	"math/rand"
 	"runtime"
@@ -58,6 +60,31 @@ func gen(r *rand.Rand, idx int, tier string) Input {
 			}
 			ss = append(ss, treeu.Stack{Key: append([]byte{}, key...), V: uint64(1 + r.Intn(1000))})
 			in.Trees[i] = append(in.Trees[i], ss...)
+		}
+	}
+	if idx%25 == 7 {
+		// big families: frames with 130-400 children shared between the trees (a merge then has hundreds of node pairs
+		// pending at once) and long frame names (the encodings exceed the decoders' 4 KiB read buffer several times)
+		in.Trees = nil
+		nt := lib.Range(r, 2, 3)
+		fan := lib.Range(r, 130, 220)
+		suffix := "_" + strings.Repeat(string(rune('k'+r.Intn(5))), lib.Range(r, 8, 40))
+		for i := 0; i < nt; i++ {
+			var ss []treeu.Stack
+			for c := 0; c < fan; c++ {
+				if r.Intn(4) == 0 && i > 0 {
+					continue // not every tree has every child
+				}
+				name := fmt.Sprintf("root;f%03d%s", c, suffix)
+				if r.Intn(3) == 0 {
+					ss = append(ss, treeu.Stack{Key: []byte(name), V: uint64(1 + r.Intn(9))})
+				}
+				for g := r.Intn(2); g >= 0; g-- {
+					ss = append(ss, treeu.Stack{Key: []byte(fmt.Sprintf("%s;g%d", name, g)), V: uint64(1 + r.Intn(50))})
+				}
+			}
+			r.Shuffle(len(ss), func(a, b int) { ss[a], ss[b] = ss[b], ss[a] })
+			in.Trees = append(in.Trees, ss)
 		}
 	}
 	in.Workers = lib.Pick(r, []int{1, 2, 3, 4, 8, 16, 32})
